@@ -36,6 +36,20 @@ def run(ctx):
         p, t = g.binding()
         progs.append((p, t, prog.qml_program(p)))
         ctx.dist("binding-%s-%s" % (p[0].split("_")[1], t))
+    # the same bindings with comments between the clauses of their switch statements (refused today; if ever accepted, a comment means nothing: the twin is judged by
+    # the same program)
+    def commented(src):
+        out = []
+        for ln in src.split("\n"):
+            tl = ln.strip()
+            if tl.startswith("default:") or (tl.startswith("case ") and rng.random() < 0.5):
+                out.append(ln[:len(ln) - len(ln.lstrip())] + rng.choice(["// note", "/* note */"]))
+            out.append(ln)
+        return "\n".join(out)
+    twins = [(p, t, commented(src)) for p, t, src in progs if "default:" in src]
+    for tw in twins[:(300 if ctx.tier == "thorough" else 60)]:
+        progs.append(tw)
+        ctx.dist("binding-commented-switch")
     singles = exe.accepted_singles(vh, [("binding", sgen.PROP[t], src) for p, t, src in progs])
     acc = []
     rejected = 0
